@@ -3,7 +3,7 @@
 * This product includes software developed at Datadog (https://www.datadoghq.com/). Copyright 2022 Datadog, Inc.
 **/
 use swc::atoms::JsWord;
-use swc_common::{Span, SyntaxContext};
+use swc_common::{Span, SyntaxContext, DUMMY_SP};
 use swc_ecma_ast::*;
 
 const DATADOG_VAR_PREFIX: &str = "__datadog";
@@ -69,8 +69,11 @@ pub fn get_dd_paren_expr(
         call
     } else {
         assignations.push(call);
+        // the injected parentheses have no position of their own: the printer maps a closing parenthesis
+        // to the byte before the end of its span, which is not a parenthesis here (and may even be the
+        // middle of a multi-byte character)
         Expr::Paren(ParenExpr {
-            span: *span,
+            span: DUMMY_SP,
             expr: Box::new(Expr::Seq(SeqExpr {
                 span: *span,
                 exprs: assignations
